@@ -126,8 +126,8 @@ func IndexLocals(f *ast.File) {
 				return true
 			}
 			o := id.Obj
-			if seen[o] || o.Pos() < fd.Pos() || o.Pos() >= fd.End() {
-				return true
+			if seen[o] || o.Pos() < fd.Pos() || o.Pos() >= fd.End() || o.Kind == ast.Fun {
+				return true // (the name of a plain function is declared at its own FuncDecl: not a local)
 			}
 			if fl, isField := o.Decl.(*ast.Field); isField {
 				// a parameter / result / receiver is declared by a Field too; a struct field is not local
